@@ -10,6 +10,7 @@
   `quickabsdet` in the source).
 -/
 import OnsagerModel.Basic
+import OnsagerModel.C21   -- Onsager.Geom.floorSqrt / boxLists (integer square root, box enumeration)
 
 namespace Onsager.C18
 
@@ -53,6 +54,11 @@ def TMat.get {α : Type} (t : TMat d α) : Mat d α := fun i j => t.tbl[i][j]
 @[macro_inline] def tabV {α : Type} (v : Vec d α) : Vec d α := TVec.get (TVec.ofFn v)
 @[macro_inline] def tabM {α : Type} (A : Mat d α) : Mat d α := TMat.get (TMat.ofFn A)
 
+/-- Memoise every element of a list, in two passes (tables first, then readers): robust even when
+    the elements come out of a lambda that the compiler lifts and eta-expands. -/
+def tabVs {α : Type} (l : List (Vec d α)) : List (Vec d α) := (l.map TVec.ofFn).map TVec.get
+def tabMs {α : Type} (l : List (Mat d α)) : List (Mat d α) := (l.map TMat.ofFn).map TMat.get
+
 def vecEqI (u v : Vec d Int) : Bool := (List.finRange d).all fun i => u i == v i
 def vecEqR (u v : Vec d Rat) : Bool := (List.finRange d).all fun i => u i == v i
 def matEqI (A B : Mat d Int) : Bool := (List.finRange d).all fun i => vecEqI (A i) (B i)
@@ -94,6 +100,30 @@ def invRot? {d : Nat} (A : Mat d Int) : Option (Mat d Int) :=
   let dt := det A
   let B : Mat d Int := tabM fun i j => dt * adj A i j
   if matEqI (mmulI B A) oneI && matEqI (mmulI A B) oneI then some B else none
+
+/-- determinant over ℚ for d = 2, 3 -/
+def detQ : {d : Nat} → Mat d Rat → Rat
+  | 2, A => A 0 0 * A 1 1 - A 0 1 * A 1 0
+  | 3, A => A 0 0 * (A 1 1 * A 2 2 - A 1 2 * A 2 1)
+          - A 0 1 * (A 1 0 * A 2 2 - A 1 2 * A 2 0)
+          + A 0 2 * (A 1 0 * A 2 1 - A 1 1 * A 2 0)
+  | _, _ => 0
+
+def adjQ : {d : Nat} → Mat d Rat → Mat d Rat
+  | 2, A => fun i j =>
+      if i = 0 ∧ j = 0 then A 1 1 else if i = 0 ∧ j = 1 then - A 0 1
+      else if i = 1 ∧ j = 0 then - A 1 0 else A 0 0
+  | 3, A => fun i j => A (j+1) (i+1) * A (j+2) (i+2) - A (j+1) (i+2) * A (j+2) (i+1)
+  | _, A => A
+
+def oneR {d : Nat} : Mat d Rat := fun i j => if i = j then 1 else 0
+
+/-- inverse of a rational matrix (`np.linalg.inv(self.metric)`), cofactor formula, CHECKED -/
+def invQ? {d : Nat} (A : Mat d Rat) : Option (Mat d Rat) :=
+  let dt := detQ A
+  if dt = 0 then none else
+  let B : Mat d Rat := tabM fun i j => adjQ A i j / dt
+  if matEqR (mmulR A B) oneR then some B else none
 
 /-! ### GroupOp (crystal.py:128-241) -/
 
@@ -257,15 +287,26 @@ def maptranslation {d : Nat} (oldpos : List (List (Vec d Rat))) (oldspins : List
       let trans := tabV (inhalf (subV ub ru0))
       (mapAll oldpos oldspins newpos newspins trans).map fun im => (trans, im)
 
-/-- `itertools.product(range(-1,2), repeat=d)` as lists -/
-def prodLists : Nat → List (List Int)
-  | 0 => [[]]
-  | n+1 => [-1, 0, 1].flatMap fun a => (prodLists n).map (a :: ·)
-
 def vecOfList {d : Nat} (l : List Int) : Vec d Int := fun i => l.getD i.val 0
 
-def supercellvect (d : Nat) : List (Vec d Int) :=
-  ((prodLists d).filter fun l => l.any (· ≠ 0)).map fun l => tabV (vecOfList l)
+/-- `nmax[i] = max(1, floor(sqrt(gmax * ginv[i,i]) + 1e-8))` (crystal.py, commit 5853619): an integer
+    vector `u` with `uᵀ g u = g_dd` obeys `|u_i| ≤ sqrt(g_dd (g⁻¹)_ii)` (Cauchy–Schwarz; theorem
+    `box_complete`).  The `1e-8` only ever enlarges the box, which cannot change the result because
+    candidates are filtered by exact length afterwards. -/
+def boxBounds {d : Nat} (g : Mat d Rat) : Option (Vec d Nat) :=
+  match invQ? g with
+  | none => none
+  | some h =>
+    let gmax := (List.ofFn fun i => g i i).foldl max 0
+    some (tabV fun i => max 1 (Onsager.Geom.floorSqrt (gmax * h i i)))
+
+/-- candidate images of lattice vectors: all non-zero integer vectors of the box, in
+    `itertools.product` order -/
+def supercellvect {d : Nat} (g : Mat d Rat) : List (Vec d Int) :=
+  match boxBounds g with
+  | none => []       -- LinAlgError in the source (singular metric): not generated
+  | some nb =>
+    tabVs (((Onsager.Geom.boxLists (List.ofFn nb)).filter fun l => l.any (· ≠ 0)).map fun l => vecOfList l)
 
 /-- `itertools.product(*lists)` -/
 def cart {β : Type} : List (List β) → List (List β)
@@ -274,10 +315,10 @@ def cart {β : Type} : List (List β) → List (List β)
 
 /-- candidate rotations: columns from `matchvect`, `|det| = 1`, metric preserved -/
 def candidateRots {d : Nat} (g : Mat d Rat) : List (Mat d Int) :=
-  let sv := supercellvect d
+  let sv := supercellvect g
   let matchvect : List (List (Vec d Int)) :=
     (List.finRange d).map fun dd => sv.filter fun u => nsq g (castV u) == g dd dd
-  ((cart matchvect).map fun tup => (tabM (fun i j => (tup.getD j.val (fun _ => 0)) i) : Mat d Int)).filter
+  (tabMs ((cart matchvect).map fun tup => ((fun i j => (tup.getD j.val (fun _ => 0)) i) : Mat d Int))).filter
     fun S => ((det S).natAbs == 1) && preservesMetric g S
 
 def opKeyEq {d : Nat} (g h : GroupOp d) : Bool :=
@@ -290,7 +331,7 @@ def dedupOps {d : Nat} (l : List (GroupOp d)) : List (GroupOp d) :=
 def gengroup {d : Nat} (c : Crystal d) : List (GroupOp d) :=
   dedupOps <| (candidateRots c.metric).flatMap fun S =>
     let Sq := castM S
-    let newpos := c.basis.map fun atoms => atoms.map fun u => tabV (mulVecR Sq u)
+    let newpos := c.basis.map fun atoms => tabVs (atoms.map fun u => mulVecR Sq u)
     let detrot : Int := if det S > 0 then 1 else -1
     ([1, -1] : List Int).filterMap fun phase =>
       let newspins := c.spins.map fun sl => sl.map fun s => phase * (detrot * s)
